@@ -85,10 +85,10 @@ CHECKS = {
             "messages cut at unit boundaries; mid-transaction splits are a separate class (finding D44); apply errors not injected",
             "DESIGN.md 5/C13"),
     "C14": ("exploration",
-            "bounded-progress monitor over real primary/replica managers on loopback: scenario matrix (workload x join time x restart/link cut x 1-2 replicas), full-scan equality within 60s and again 2s later",
+            "bounded-progress monitor over real primary/replica managers on loopback: scenario matrix (workload x join time x restart/link cut x 1-2 replicas), full-scan equality (wait ends after 60s without progress) and again 2s later",
             "Real engines and replication.Manager instances; workloads with single writes, >100 entries, multi-key and >=100-operation transactions, log rotation on the primary, large values; "
             "replicas join before/during/after, are restarted on the same directory or lose their link through a controllable TCP proxy.",
-            "liveness judged as bounded progress (60s >= 10x normal)",
+            "liveness judged as bounded progress (60s without any change of the replica contents; hard cap 10 min)",
             "DESIGN.md 5/C14"),
     "C15": ("exploration",
             "latency/progress monitor on a real primary next to fault-injected peers (never-reading, slow, non-acking, NACKing, flapping, TCP-stalled/cut through a proxy), topology and convergence checks",
